@@ -33,9 +33,10 @@ def regenerate(ctx):
         gen_scales.main(os.path.join(C.SRC, "scales.py"), os.path.join(C.COQ, "gen", "Scales.v"))
         return True
     except (Unsupported, SyntaxError, OSError) as e:
-        ctx.fail("translator gen/scales.py no longer recognises scales.py: %s" % e,
-                 dict(correspondence="gen/scales.py -> coq/gen/Scales.v", error=str(e)), kind="tie", no_input=True)
-        return False
+        if not C.tie_fallback(ctx, "translator gen/scales.py no longer recognises scales.py: %s" % e,
+                 dict(correspondence="gen/scales.py -> coq/gen/Scales.v", error=str(e)), kind="tie", no_input=True):
+            return False
+        return True
 
 
 def points(ctx, n):
